@@ -159,6 +159,15 @@ def build_tree(chains: bool = False) -> dict:
         names = [head] + [f"{head}_{i}" for i in range(1, k)]
         for i, n in enumerate(names):
             os.symlink(names[i + 1] if i + 1 < k else final, os.path.join(R, "base", n))
+    if chains:
+        # the band around Linux's MAXSYMLINKS = 40, which counts ALL links followed in one resolution (the model does the same):
+        # `s -> .` is followed any number of times one after the other (nesting depth 1: "s/s/.../s/f"); `nest_i -> nest_{i+1}/.`
+        # is a chain whose links are NOT the last component of their target (46 links from `nest` to the directory d, 46 - i from
+        # nest_i); `deep_i` / `deepout_i` have 46 - i links left to an inside file / to the canary outside
+        os.symlink(".", os.path.join(R, "base", "s"))
+        names = ["nest"] + [f"nest_{i}" for i in range(1, 46)]
+        for i, n in enumerate(names):
+            os.symlink(names[i + 1] + "/." if i + 1 < 46 else "d", os.path.join(R, "base", n))
     # non-regular objects inside the base: a FIFO (kept open read-write by the harness so that an open() of it can
     # never block) holding 8 bytes, and, when permitted, a character device (a /dev/zero clone)
     special_fds = []
@@ -394,6 +403,8 @@ def real_read(t, ep: str, scratch: str, R: str, release: bool = True) -> dict:
                 pass
     try:
         own = os.path.join(os.fspath(t.base_dir), os.fspath(t.location))
+        if isinstance(own, bytes):
+            own = os.fsdecode(own)
     except Exception:  # noqa: BLE001
         own = None
     obs["own_opens"] = sum(1 for p in _AUDIT["events"] if p == own)
@@ -467,7 +478,37 @@ TOKENS = [".", "..", "d", "f", "link_in", "link_out", ""]
 EXTRA_TOKENS = ["fifo", "zero", "dlink_out", "dlink_in", "hard", "up", "chain", "loop_a", "dangling", "link_abs_out", "link_abs_in",
                 "hard_in", "link_sib", "g", "e", "nothing", "basex", "outside", "base", "canary", "back", "link_in2",
                 "chain_in", "dangling_out", "blink"]
-CHAIN_TOKENS = ["mid", "deep", "deepout", "deep_13", "deep_3", "mid_29", "deepout_40"]
+CHAIN_TOKENS = ["mid", "deep", "deepout", "deep_13", "deep_3", "mid_29", "deepout_40", "deep_6", "deep_5", "deepout_6", "deepout_5", "nest_6", "nest_5", "s"]
+
+
+def band_location(rng) -> tuple:
+    """A location that makes the kernel follow about 40 symbolic links in ONE resolution (36..44, counted by construction),
+    mixing links followed one after the other (`s -> .`, dlink_in/.., d/up), chains of trailing links (deep_i, deepout_i) and
+    nested non-trailing links (nest_i).  Returns (location, number of links, shape)."""
+    total = rng.choice([36, 38, 39, 40, 40, 41, 41, 42, 44])
+    shape = rng.choice(["seq", "chain", "nest", "seq+chain", "seq+nest", "seq+chain-out", "chain-out", "mixed"])
+    pre, left = [], total
+    if shape in ("mixed",):
+        for _ in range(rng.randrange(1, 4)):
+            tok, cost = rng.choice([("dlink_in/..", 1), ("d/up", 1), ("dlink_in/up", 2), ("s", 1)])
+            pre.append(tok)
+            left -= cost
+    if shape.startswith("seq") or shape == "mixed":
+        k = left if shape == "seq" else rng.randrange(1, left)
+        pre += ["s"] * k
+        left -= k
+    if shape == "seq":
+        tail = rng.choice(["f", "d/f", "g"])
+    elif "nest" in shape or (shape == "mixed" and rng.random() < 0.4):
+        tail = f"nest_{46 - left}/f" if left < 46 else "nest/f"
+    elif shape.endswith("-out") or (shape == "mixed" and rng.random() < 0.5):
+        tail = f"deepout_{46 - left}" if left < 46 else "deepout"
+    else:
+        tail = f"deep_{46 - left}" if left < 46 else "deep"
+    if left <= 0:
+        tail = "f"
+        total -= left
+    return "/".join(pre + [tail]), total, shape
 
 
 def base_spellings(R: str) -> list[dict]:
@@ -560,8 +601,10 @@ def _work(job: dict) -> dict:
     id_of = {info["id"]: info for info in desc["inodes"].values()}
     queries = []
     obs_list = []
-    for loc, ep, off, ln in job["cases"]:
+    for loc, ep, off, ln, *extra in job["cases"]:
         case = {"cwd": sp["cwd"], "base": sp["base"], "loc": loc, "ep": ep, "offset": off, "length": ln, "base_kind": sp["kind"]}
+        if extra:
+            case["hist"] = extra[0]
         t = make_tensor(sp["base"], loc, off, ln)
         obs = real_read(t, ep, tree["scratch"], R)
         oracle(part, tree, desc, case, obs, sp["true"])
@@ -600,9 +643,12 @@ def _work(job: dict) -> dict:
             part.count("eloop_hypothesis=nul")
     for (case, obs), out in zip(obs_list, outs["r"]):
         layer = obs.get("layer", "ok" if obs["r"] == "ok" else "?")
+        hist = case.pop("hist", {})
+        if hist:
+            hist = {**hist, "band_outcome": f"{hist.get('band_links')}:{obs['r'] if obs['r'] == 'ok' else 'raised-' + layer}"}
         part.case([case["cwd"].replace(R, "$R"), case["base"].replace(R, "$R"), case["loc"].replace(R, "$R"), case["ep"], case["offset"], case["length"]],
                   nontrivial=True, sample=dict(case), base=case["base_kind"], ep=case["ep"],
-                  outcome=(obs["r"] if obs["r"] == "ok" else "raised-" + layer), ncomp=min(len(case["loc"].split("/")), 6))
+                  outcome=(obs["r"] if obs["r"] == "ok" else "raised-" + layer), ncomp=min(len(case["loc"].split("/")), 6), **hist)
         compare(part, case, obs, out, desc["inodes"], R)
     return part
 
@@ -640,7 +686,7 @@ def compare(part, case: dict, obs: dict, out: dict, id_of: dict, R: str) -> None
     mlayer = {"c1": "c1", "c2": "c2", "c3": "c3"}.get(out["v"], "open")
     if layer == "type" or out.get("nev") == 0:
         # TypeError from os.path.join(bytes, str): the model performs no event at all
-        if not (layer == "type" and out.get("nev", 0) == 0):
+        if not (layer == "type" and (out.get("nev", 0) == 0 or (out.get("nev") == 1 and out.get("v") == "skipped"))):
             part.disagree("raised without any event (TypeError on a bytes base_dir) differs", case, out, obs)
         return
     if layer in ("c1", "c2", "c3", "open"):
@@ -1318,6 +1364,12 @@ def run(ctx: Ctx) -> None:
                 if ctx.rng.random() < 0.15:
                     loc = tree2["R"] + "/base/" + loc
                 cases.append((loc, ctx.rng.choice(ENTRY_POINTS), 0, NBYTES))
+            # the band around MAXSYMLINKS = 40: the links of the base spelling count as well
+            base_links = {"abs": 0, "rel": 0, "abs-symlink": 1, "abs-symlink-up": 1, "rel-symlink-dotdot": 1}.get(sp["kind"])
+            if base_links is not None:
+                for _ in range(ctx.pick(40, 400)):
+                    loc, nlinks, shape = band_location(ctx.rng)
+                    cases.append((loc, ctx.rng.choice(ENTRY_POINTS), 0, NBYTES, {"band_links": min(max(nlinks + base_links, 35), 45), "band_shape": shape}))
             jobs.append({"tree": tree2, "desc": desc2, "sp": sp, "cases": cases, "fuelcmp": True})
         for p in pmap(_work, jobs):
             ctx.merge(p)
@@ -1332,13 +1384,27 @@ def run(ctx: Ctx) -> None:
             k = max(1, (len(paths) + 3) // 4)
             for i in range(0, len(paths), k):
                 rp_jobs.append({"desc": desc, "cwd": cwd, "paths": paths[i:i + k], "R": R})
-        ctx.exhaustive_scopes.append("realpath/lstat/stat: the same location sequences as paths, from 4 working directories and 2 absolute prefixes")
+        # the kernel model itself on the band: lstat / stat / realpath of paths that follow 36..44 links (tree with chains)
+        R2 = tree2["R"]
+        for cwd, pre in ((R2 + "/base", ""), (R2, "blink/"), (R2, R2 + "/base/d/up/")):
+            paths = []
+            for n in range(36, 45):
+                paths += [pre + "s/" * n + "f", pre + "s/" * n + "s", pre + "s/" * (n - 1) + "link_in", pre + f"deep_{46 - n}", pre + f"deepout_{46 - n}",
+                          pre + f"nest_{46 - n}/f", pre + f"nest_{46 - n}", pre + "s/" * (n - 20) + f"deep_{26}", pre + "s/" * (n - 20) + f"nest_{26}/f",
+                          pre + "s/" * n + "loop_a", pre + "s/" * (n - 2) + "chain"]
+            for _ in range(ctx.pick(60, 600)):
+                paths.append(pre + band_location(ctx.rng)[0])
+            rp_jobs.append({"desc": desc2, "cwd": cwd, "paths": paths, "R": R2})
+        ctx.exhaustive_scopes.append("realpath/lstat/stat: the same location sequences as paths, from 4 working directories and 2 absolute prefixes; "
+                                     "paths following n = 36..44 links (sequential, trailing chains, nested, mixed) from 3 starting points")
         for p in pmap(_realpath_work, rp_jobs):
             ctx.merge(p)
         load_cases(ctx, tree, desc)
         nested_load_cases(ctx, tree, desc)
         odd_cases(ctx, tree2, desc2)
         size_zero_cases(ctx, tree2, desc2)
+        bytes_location_cases(ctx, tree, desc)
+        pathmax_cases(ctx)
         stateful_sequences(ctx)
         world_sequences(ctx)
         random_trees(ctx)
@@ -1439,6 +1505,20 @@ def build_state_tree() -> dict:
         _w(os.path.join(R, rel), c)
     os.symlink("../outside/canary", os.path.join(R, "other/w"))
     os.symlink("../outside/canary", os.path.join(R, "base/wlink"))
+    # a base directory reached through a symbolic link that is re-pointed later (`cur -> base`, then `cur -> base2`), and a
+    # directory `alt/base` that a RELATIVE base directory "base" names after os.chdir(alt): both new directories hold symbolic
+    # links leading back into the directory the same spelling named before; `base/dl/..` is lexically `base`, really `p`
+    for d in ("base2", "alt", "alt/base", "p", "p/q"):
+        os.mkdir(os.path.join(R, d))
+    files["p/w"] = b"CANARYPW"
+    _w(os.path.join(R, "p/w"), files["p/w"])
+    os.symlink("base", os.path.join(R, "cur"))
+    os.symlink("../p/q", os.path.join(R, "base/dl"))
+    for n in ("w", "f", "s"):
+        os.symlink("../base/" + n, os.path.join(R, "base2", n))
+        os.symlink("../../base/" + n, os.path.join(R, "alt/base", n))
+    os.symlink("../outside/canary", os.path.join(R, "base2/wlink"))
+    _w(os.path.join(R, "base2/g"), b"INSIDE2G")
     scratch = os.path.join(top, "scratch")
     os.mkdir(scratch)
     return {"top": top, "R": R, "scratch": scratch, "canaries": sorted(v.decode() for v in files.values() if v.startswith(b"CANARY"))}
@@ -1490,6 +1570,14 @@ def _mut_dir_swap(R, t, loc):
     os.symlink("../outside/s", os.path.join(R, "base/s"))
 
 
+def _mut_retarget_cur(R, t, loc):
+    """re-point the symbolic link on the base path: cur -> base becomes cur -> base2 (and back)"""
+    p = os.path.join(R, "cur")
+    tgt = "base2" if os.readlink(p) == "base" else "base"
+    os.remove(p)
+    os.symlink(tgt, p)
+
+
 def _mut_base_other(R, t, loc):
     t.base_dir = R + "/other"
     return (R + "/other", R + "/other")
@@ -1528,6 +1616,7 @@ def _mut_release(R, t, loc):
 MUTATIONS = {
     "none": _mut_none, "symlink_out": _mut_symlink_out, "hardlink_out": _mut_hardlink_out, "symlink_in": _mut_symlink_in,
     "replace_in": _mut_replace_in, "rewrite_in_place": _mut_rewrite_in_place, "add_hardlink": _mut_add_hardlink,
+    "retarget_cur": _mut_retarget_cur,
     "delete": _mut_delete, "dir_swap": _mut_dir_swap, "base_other": _mut_base_other, "base_sub": _mut_base_sub,
     "base_rel": _mut_base_rel, "base_outside": _mut_base_outside, "base_empty": _mut_base_empty, "base_main": _mut_base_main,
     "release": _mut_release,
@@ -1740,7 +1829,8 @@ def run_world(part, ops: list, label: str) -> None:
     """One history of public operations on the tensors of one model; the real objects vs the model's world (path.world),
     with an independent oracle after every call.  ops:
       ("call", t, ep) | ("base", t, kind, spelling) | ("basedir", "main"|"func", kind, spelling) | ("release", t)
-      | ("load",) load_to_model | ("convert", [t..]) convert_tensors_from_external | ("clone",) | ("fs", mutation)"""
+      | ("load",) load_to_model | ("convert", [t..]) convert_tensors_from_external | ("clone",) | ("fs", mutation)
+      | ("chdir", directory relative to the root of the tree)"""
     import pathlib
 
     import onnx_ir as ir
@@ -1770,9 +1860,11 @@ def run_world(part, ops: list, label: str) -> None:
                 return os.fsencode(sp), sp
             return sp, sp
 
+        here = {"cwd": R}  # the working directory (changed by ("chdir", d)); a relative base directory is relative to it
+
         def true_of(sp):
             try:
-                return os.path.realpath(os.path.join(R, sp)) if sp != "" and os.path.isdir(os.path.join(R, sp)) else None
+                return os.path.realpath(os.path.join(here["cwd"], sp)) if sp != "" and os.path.isdir(os.path.join(here["cwd"], sp)) else None
             except (OSError, ValueError):
                 return None
 
@@ -1828,7 +1920,12 @@ def run_world(part, ops: list, label: str) -> None:
 
         for step, op in enumerate(ops):
             kind = op[0]
-            if kind == "fs":
+            if kind == "chdir":
+                here["cwd"] = os.path.normpath(os.path.join(R, op[1]))
+                os.chdir(here["cwd"])
+                mops.append({"op": "chdir", "cwd": here["cwd"]})
+                part.count("world_op=chdir")
+            elif kind == "fs":
                 loc = "s/w" if op[1] == "dir_swap" else "w"
                 try:
                     MUTATIONS[op[1]](R, None, loc)
@@ -1872,7 +1969,7 @@ def run_world(part, ops: list, label: str) -> None:
                 part.count("world_op=clone")
             elif kind == "call":
                 _, i, ep = op
-                case = {"cwd": R, "base": cur[i][1], "base_type": cur[i][0], "loc": WORLD_TENSORS[i][1], "ep": ep, "via": "world", "sequence": label,
+                case = {"cwd": here["cwd"], "base": cur[i][1], "base_type": cur[i][0], "loc": WORLD_TENSORS[i][1], "ep": ep, "via": "world", "sequence": label,
                         "ops": ops, "tensor": i}
                 obs = real_read(ts[i], ep, tree["scratch"], R, release=False)
                 oracle_call(i, ep, obs, case)
@@ -1902,17 +1999,28 @@ def run_world(part, ops: list, label: str) -> None:
                         got = {"r": "raised", "layer": _classify(e), "exc": type(e).__name__}
                 finally:
                     _AUDIT["on"] = False
-                opened = [p_ if os.path.isabs(p_) else os.path.join(R, p_) for p_ in _AUDIT["events"] if not (p_ if os.path.isabs(p_) else os.path.join(R, p_)).startswith(tree["scratch"])]
+                opened = [p_ if os.path.isabs(p_) else os.path.join(here["cwd"], p_) for p_ in _AUDIT["events"] if not (p_ if os.path.isabs(p_) else os.path.join(here["cwd"], p_)).startswith(tree["scratch"])]
                 got["opened"] = opened
-                case = {"cwd": R, "via": "world-" + kind, "sequence": label, "ops": ops, "tensors": idx}
+                # per tensor: the files opened, in order, with the inode each open reached (None: the open failed) and the path
+                # each listed tensor has at this moment
+                got["opened_ids"] = [(desc["inodes"].get(true_location(p_, R)) or {}).get("id") for p_ in opened]
+                got["own_paths"] = {}
+                for i in idx:
+                    try:
+                        own_ = os.path.join(os.fspath(ts[i].base_dir), os.fspath(ts[i].location))
+                        got["own_paths"][i] = os.path.join(here["cwd"], own_) if isinstance(own_, str) else None
+                    except Exception:  # noqa: BLE001
+                        got["own_paths"][i] = None
+                got["released"] = {i: ts[i].raw is None for i in idx}
+                case = {"cwd": here["cwd"], "via": "world-" + kind, "sequence": label, "ops": ops, "tensors": idx}
                 # oracle: every file opened belongs to one of the listed tensors and lies inside THAT tensor's base directory
                 for p_ in opened:
                     key = true_location(p_, R)
                     info = desc["inodes"].get(key)
                     if info is None:
                         continue
-                    owners = [i for i in idx if cur[i][0] != "bytes" and os.path.join(R, cur[i][1], WORLD_TENSORS[i][1]) == p_ or
-                              (cur[i][0] != "bytes" and os.path.join(cur[i][1], WORLD_TENSORS[i][1]) == os.path.relpath(p_, R))]
+                    owners = [i for i in idx if cur[i][0] != "bytes" and os.path.join(here["cwd"], cur[i][1], WORLD_TENSORS[i][1]) == p_ or
+                              (cur[i][0] != "bytes" and os.path.join(cur[i][1], WORLD_TENSORS[i][1]) == os.path.relpath(p_, here["cwd"]))]
                     ok_ = False
                     for i in owners:
                         tb_ = true_of(cur[i][1])
@@ -1963,6 +2071,32 @@ def run_world(part, ops: list, label: str) -> None:
                     m_opens = sum(1 for e_ in entries if e_["opened"] is not None)
                     if m_opens != len(got["opened"]):
                         part.disagree("load_to_model / convert_tensors_from_external: number of files opened differs from the model", case, entries, got)
+                    else:
+                        # PER TENSOR: which file each processed tensor opened (path string and inode), in order; which layer
+                        # stopped the tensor that raised; every tensor converted is released afterwards
+                        k_ev = 0
+                        for i, e_ in zip(idx, entries):
+                            part.count("world_load_per_tensor=" + e_["r"] + ("" if e_["opened"] is None else "-open"))
+                            if e_["opened"] is not None:
+                                p_real, id_real = got["opened"][k_ev], got["opened_ids"][k_ev]
+                                k_ev += 1
+                                if got["own_paths"].get(i) != p_real:
+                                    part.disagree("load_to_model / convert_tensors_from_external: a tensor opened a file that is not its own path", {**case, "tensor": i}, got["own_paths"].get(i), p_real)
+                                elif (e_["opened"] if e_["opened"] != "fail" else None) != id_real and not (e_["opened"] == "fail" and os.path.isdir(p_real)):
+                                    part.disagree("load_to_model / convert_tensors_from_external: inode opened for a tensor differs from the model", {**case, "tensor": i}, e_, id_real)
+                            if e_["r"] == "ok" and not got["released"].get(i, True):
+                                part.disagree("load_to_model / convert_tensors_from_external: a converted tensor keeps its mapping (the model releases it)", {**case, "tensor": i}, e_, got["released"])
+                        if got["r"] == "raised" and entries:
+                            last = entries[-1]
+                            mlayer = {"c1": "c1", "c2": "c2", "c3": "c3"}.get(last["v"], "open")
+                            layer = got.get("layer")
+                            if last.get("nev") == 0:
+                                if layer != "type":
+                                    part.disagree("load_to_model / convert_tensors_from_external: the tensor that raised: TypeError expected (bytes base_dir)", {**case, "tensor": idx[len(entries) - 1]}, last, got)
+                            elif layer in ("c1", "c2", "c3", "open") and layer != mlayer:
+                                part.disagree("load_to_model / convert_tensors_from_external: rejecting layer of the tensor that raised differs", {**case, "tensor": idx[len(entries) - 1]}, last, got)
+                            elif layer in ("other", "type") and mlayer in ("c1", "c2", "c3"):
+                                part.disagree("load_to_model / convert_tensors_from_external: the implementation raised after the check, the model in it", {**case, "tensor": idx[len(entries) - 1]}, last, got)
         if pos != len(log):
             part.disagree("model log longer than the calls made (world)", {"sequence": label, "ops": ops}, len(log), pos)
         for t in ts:
@@ -1983,7 +2117,11 @@ def _world_work(job: list) -> dict:
 
 
 WORLD_BASES = [("str", "$R/base"), ("pathlike", "$R/base"), ("str", "base"), ("pathlike", "base/"), ("str", "$R/base/"), ("bytes", "$R/base"),
-               ("str", "$R/other"), ("str", "$R/outside"), ("str", ""), ("str", "$R/base/d"), ("pathlike", "$R/other"), ("str", "$R/base/s/..")]
+               ("str", "$R/other"), ("str", "$R/outside"), ("str", ""), ("str", "$R/base/d"), ("pathlike", "$R/other"), ("str", "$R/base/s/.."),
+               # a base directory through the re-pointable link `cur`; lexically equal spellings of different directories
+               ("str", "$R/cur"), ("str", "cur"), ("pathlike", "$R/cur"), ("str", "."), ("str", "base/dl/.."), ("str", "$R/cur/")]
+WORLD_FS_MUTS_ALL = WORLD_FS_MUTS + ["retarget_cur", "retarget_cur"]
+WORLD_CHDIRS = ["", "base", "alt", "base2"]
 
 
 def world_sequences(ctx: Ctx) -> None:
@@ -2008,6 +2146,37 @@ def world_sequences(ctx: Ctx) -> None:
                 ops += [("load",), ("call", 0, "tobytes"), ("convert", [3, 4])]
                 scen.append((ops, f"{setter}:{b1[0]}:{b1[1]}>{b2[0]}:{b2[1]}#{k}"))
     ctx.exhaustive_scopes.append(f"world: both setters x {7} first base values x 4 second base values, all tensors read before and after ({len(scen)} histories)")
+    # the same SPELLING of the base directory names another directory at the second read: (a) a symbolic link on the base path is
+    # re-pointed between two reads (cur -> base, then cur -> base2), (b) os.chdir between two reads through a relative base
+    # directory ("base" from $R, then from $R/alt); the new directory holds symbolic links leading into the old one.  Every
+    # tensor is read before and after, through every entry point; tensors mapped before keep their mapping (by design), the
+    # others and tofile open again.  (c) lexically equal spellings of different directories: "" -> ".", "base/dl/.." -> "base".
+    n0 = len(scen)
+    nt = len(WORLD_TENSORS)
+    for k, ep in enumerate(ENTRY_POINTS):
+        for b in (("str", "$R/cur"), ("pathlike", "$R/cur"), ("str", "cur"), ("str", "$R/cur/")):
+            for setter in ("basedir", "base"):
+                ops = [("basedir", "main", *b), ("basedir", "func", *b)] if setter == "basedir" else [("base", i, *b) for i in range(nt)]
+                ops += [("call", i, ENTRY_POINTS[(i + k) % len(ENTRY_POINTS)]) for i in (0, 2, 3)]
+                ops += [("fs", "retarget_cur")]
+                ops += [("call", i, ep) for i in range(nt)] + [("call", 0, "tofile_bytesio"), ("release", 0), ("call", 0, ep), ("convert", [3, 4])]
+                ops += [("fs", "retarget_cur"), ("call", 4, ep), ("load",)]
+                scen.append((ops, f"retarget:{setter}:{b[0]}:{b[1]}:{ep}"))
+        for b in (("str", "base"), ("pathlike", "base/"), ("str", "./base")):
+            for d1, d2 in (("", "alt"), ("alt", "")):
+                ops = [("chdir", d1), ("basedir", "main", *b), ("basedir", "func", *b)]
+                ops += [("call", i, ENTRY_POINTS[(i + k) % len(ENTRY_POINTS)]) for i in (0, 2, 3)]
+                ops += [("chdir", d2)]
+                ops += [("call", i, ep) for i in range(nt)] + [("call", 0, "tofile_file"), ("release", 0), ("call", 0, ep), ("convert", [3, 4]), ("load",)]
+                scen.append((ops, f"chdir:{d1 or '.'}>{d2 or '.'}:{b[0]}:{b[1]}:{ep}"))
+        # "" -> "." with the working directory inside the tree, and "base/dl/.." -> "base"
+        ops = [("chdir", "base"), ("call", 5, ep), ("call", 0, ep), ("basedir", "main", "str", "."), ("call", 5, ep), ("call", 0, ep), ("call", 5, "tofile_bytesio")]
+        scen.append((ops, f"lexical-equal:empty>dot:{ep}"))
+        ops = [("basedir", "main", "str", "base/dl/.."), ("call", 0, ep), ("call", 3, ep), ("basedir", "main", "str", "base"), ("call", 0, ep), ("call", 3, ep),
+               ("basedir", "main", "str", "base/dl/.."), ("call", 0, ep)]
+        scen.append((ops, f"lexical-equal:dotdot-after-link>collapsed:{ep}"))
+    ctx.exhaustive_scopes.append(f"world: re-pointed symlink on the base path (4 spellings x 2 setters), chdir under a relative base (3 spellings x 2 directions), "
+                                 f"lexically equal base values, x all {len(ENTRY_POINTS)} entry points ({len(scen) - n0} histories)")
     for _ in range(ctx.pick(120, 1500)):
         ops = [("basedir", "main", *ctx.rng.choice(WORLD_BASES[:5])), ("basedir", "func", *ctx.rng.choice(WORLD_BASES[:5]))] if ctx.rng.random() < 0.8 else []
         for _ in range(ctx.rng.randrange(4, 14)):
@@ -2025,14 +2194,225 @@ def world_sequences(ctx: Ctx) -> None:
                 ops.append(("load",))
             elif r < 0.9:
                 ops.append(("convert", sorted(ctx.rng.sample(range(len(WORLD_TENSORS)), ctx.rng.randrange(1, 4)))))
-            elif r < 0.94:
+            elif r < 0.93:
                 ops.append(("clone",))
+            elif r < 0.96:
+                ops.append(("chdir", ctx.rng.choice(WORLD_CHDIRS)))
             else:
-                ops.append(("fs", ctx.rng.choice(WORLD_FS_MUTS)))
+                ops.append(("fs", ctx.rng.choice(WORLD_FS_MUTS_ALL)))
         scen.append((ops, "random:" + ">".join(str(o[0]) for o in ops)))
     k_ = max(1, (len(scen) + 31) // 32)
     for p in pmap(_world_work, [scen[i:i + k_] for i in range(0, len(scen), k_)]):
         ctx.merge(p)
+
+
+def bytes_location_cases(ctx: Ctx, tree: dict, desc: dict) -> None:
+    """A LOCATION given as a bytes object (os.fsencode spelling), with base directories of every type incl. the empty ones
+    (model: callTB, theorem C10_bytes_location).  Oracle: with a non-empty base directory no byte is returned (except b"" by
+    tobytes of a zero-size tensor) and no file of the tree is opened."""
+    import pathlib
+
+    import onnx_ir as ir
+
+    R = tree["R"]
+    b = R + "/base"
+    bases = [("str", b), ("pathlike", b), ("bytes", b), ("bytes", "base"), ("str", "base/"), ("bytes", ""), ("str", ""), ("bytes", R + "/blink")]
+    locs = ["f", "d/f", "link_out", "../outside/canary", R + "/outside/canary", R + "/base/f", "base/f", "nothing", "hard", ""]
+    old = os.getcwd()
+    try:
+        os.chdir(R)
+        queries, obs_l = [], []
+        for kind, base in bases:
+            bobj = os.fsencode(base) if kind == "bytes" else pathlib.PurePosixPath(base) if kind == "pathlike" else base
+            mbase = os.fspath(bobj) if kind == "pathlike" else base
+            for loc in locs:
+                for zero in (False, True):
+                    for ep in ENTRY_POINTS:
+                        case = {"cwd": R, "base": mbase, "loc": loc, "ep": ep, "offset": 0, "length": NBYTES, "via": "bytes-location", "base_type": kind, "zero": zero}
+                        try:
+                            t = ir.ExternalTensor(os.fsencode(loc), 0, NBYTES, ir.DataType.UINT8, shape=ir.Shape([0 if zero else NBYTES]), name="t", base_dir=bobj)
+                        except Exception:  # noqa: BLE001  constructing never reads
+                            ctx.count("bytes-location-construct-raised")
+                            continue
+                        obs = real_read(t, ep, tree["scratch"], R)
+                        ctx.case(["bytes-location", kind, base.replace(R, "$R"), loc.replace(R, "$R"), ep, zero], bytes_loc_base=kind + ("-empty" if base == "" else ""),
+                                 bytes_loc_outcome=(obs["r"] + ("-nobytes" if obs.get("bytes") == "" else "") if obs["r"] == "ok" else "raised-" + obs.get("layer", "?")))
+                        if base != "":
+                            if obs["r"] == "ok" and obs["bytes"] != "":
+                                ctx.fail(f"bytes-location-read:{kind}:{ep}", "a read of a tensor with a bytes location under a non-empty base directory returned bytes", {**case, "obs": obs})
+                            if any((posixpath.normpath(p_) + "/").startswith(tree["top"] + "/") for p_ in obs["opened"]):
+                                ctx.fail(f"bytes-location-open:{kind}:{ep}", "a read of a tensor with a bytes location under a non-empty base directory opened a file", {**case, "obs": obs})
+                        queries.append([kind, mbase, loc, 0, NBYTES, zero, ep])
+                        obs_l.append((case, obs))
+        mo = lean_batch([{"m": "path.readsTB", "fs": fs_json(desc), "cwd": R, "kfuel": KFUEL, "fuel": PFUEL, "queries": queries}])[0]
+        if "r" not in mo:
+            ctx.disagree("model error (bytes location)", {"bytes-location": True}, mo, None)
+        else:
+            for (case, obs), o in zip(obs_l, mo["r"]):
+                compare(ctx, case, obs, o, desc["inodes"] if case["base"] == "" and case["base_type"] == "bytes" else {}, R)
+    finally:
+        os.chdir(old)
+
+
+# --------------------------------------------------------------------------- PATH_MAX at every path operation
+
+
+def _deep_mkdirs(start: str, n: int, tag: str, last_len: int | None = None) -> list:
+    """n nested directories with 200-character names below `start` (made step by step: the full name exceeds PATH_MAX);
+    returns the names; leaves the process in the deepest one."""
+    os.chdir(start)
+    names = []
+    for i in range(n):
+        name = (tag + str(i)).ljust(last_len if (last_len is not None and i == n - 1) else 200, "x")
+        os.mkdir(name)
+        os.chdir(name)
+        names.append(name)
+    return names
+
+
+def describe_tree_deep(R: str) -> dict:
+    """describe_tree for trees whose absolute names exceed PATH_MAX: walks with directory file descriptors."""
+    import stat as _stat
+
+    entries, inodes = [], {}
+    anc, ancs = R, []
+    while anc != "/":
+        anc = os.path.dirname(anc)
+        ancs.append(anc)
+    for a in reversed(ancs):
+        if a != "/":
+            entries.append([a, "d", os.stat(a).st_nlink])
+
+    def walk(fd: int, label: str) -> None:
+        entries.append([label, "d", os.fstat(fd).st_nlink])
+        for n in sorted(os.listdir(fd)):
+            st = os.lstat(n, dir_fd=fd)
+            p = label + "/" + n
+            if _stat.S_ISLNK(st.st_mode):
+                entries.append([p, "l", os.readlink(n, dir_fd=fd)])
+            elif _stat.S_ISDIR(st.st_mode):
+                sub = os.open(n, os.O_RDONLY | os.O_DIRECTORY | os.O_NOFOLLOW, dir_fd=fd)
+                try:
+                    walk(sub, p)
+                finally:
+                    os.close(sub)
+            elif _stat.S_ISREG(st.st_mode):
+                key = (st.st_dev, st.st_ino)
+                if key not in inodes:
+                    f = os.open(n, os.O_RDONLY | os.O_NOFOLLOW, dir_fd=fd)
+                    try:
+                        data = os.read(f, 64)
+                    finally:
+                        os.close(f)
+                    inodes[key] = {"id": len(inodes) + 1, "nlink": st.st_nlink, "data": data.decode("latin1"), "locs": []}
+                inodes[key]["locs"].append(p)
+                entries.append([p, "f", inodes[key]["id"]])
+
+    fd = os.open(R, os.O_RDONLY | os.O_DIRECTORY)
+    try:
+        walk(fd, R)
+    finally:
+        os.close(fd)
+    return {"entries": entries, "inodes": inodes}
+
+
+def pathmax_cases(ctx: Ctx, only: str | None = None) -> None:
+    """PATH_MAX at EVERY path operation of the containment check (os.lstat inside os.path.realpath, os.stat of the resolved path),
+    not only at the open: trees whose resolved locations are PATH_MAX bytes or longer while the strings given to the library
+    are short.  Model: readP (joinRealP / lstatP / statFileP: an entry that cannot be lstat'ed is a non-link, as in CPython's
+    non-strict realpath).  Shapes: `long-base` - an absolute base directory reached through two long relative symbolic links
+    (D451); `deep-cwd` - a relative base directory under a working directory about 4.2 kB deep (D452); `boundary` - resolved
+    names of exactly PATH_MAX - 2 .. PATH_MAX + 1 bytes.  Oracle: no byte of a file outside the base directory / with
+    several links is returned."""
+    import onnx_ir as ir
+
+    top = os.path.realpath(tempfile.mkdtemp(prefix="irverif-c10-"))
+    R = os.path.join(top, "r")
+    old = os.getcwd()
+    try:
+        os.mkdir(R)
+        os.mkdir(R + "/outside")
+        os.mkdir(top + "/scratch")
+        _w(R + "/outside/canary", b"CANARY_C")
+        _w(R + "/outside/hc", b"CANARY_H")
+        canaries = {"CANARY_C", "CANARY_H"}
+        setups = []  # (shape, cwd as a list of chdir steps from R, base, true base label, [locs])
+
+        def fill_base() -> None:
+            """in the current directory: a base directory's content"""
+            _w("ok", b"INSIDEOK")
+            os.symlink(R + "/outside/canary", "sym")
+            os.symlink("ok", "sym_in")
+            os.link(R + "/outside/hc", "hard")
+            os.mkdir("sub")
+            _w("sub/f", b"INSIDESF")
+            os.symlink("sub", "dsym_in")
+
+        # long-base: R/t/L -> 14 directories (2.8 kB), there L2 -> 14 more; the base directory R/t/L/L2 is 5.6 kB deep
+        os.mkdir(R + "/t")
+        n1 = _deep_mkdirs(R + "/t", 14, "d")
+        os.chdir(R + "/t"); os.symlink("/".join(n1), "L")
+        for c_ in n1:
+            os.chdir(c_)
+        n2 = _deep_mkdirs(".", 14, "e")
+        fill_base()
+        for _ in n2:
+            os.chdir("..")
+        os.symlink("/".join(n2), "L2")
+        setups.append(("long-base", [], R + "/t/L/L2", ["ok", "sym", "sym_in", "hard", "sub/f", "dsym_in/f", "nothing", "../L2/sym"]))
+        setups.append(("long-base", ["t"], "L/L2", ["ok", "sym", "hard", "sub/f"]))
+        # deep-cwd: R/w/<21 directories>/base, read with the relative base directory "base" from inside
+        os.mkdir(R + "/w")
+        nw = _deep_mkdirs(R + "/w", 21, "c")
+        os.mkdir("base"); os.chdir("base"); fill_base()
+        setups.append(("deep-cwd", ["w"] + nw, "base", ["ok", "sym", "sym_in", "hard", "sub/f", "dsym_in/f", "nothing"]))
+        setups.append(("deep-cwd", ["w"] + nw, "./base/", ["ok", "hard", "sym"]))
+        # boundary: the absolute name of base/ok has exactly PATH_MAX - 2 .. PATH_MAX + 1 bytes
+        for k, total in enumerate((4094, 4095, 4096, 4097)):
+            os.mkdir(R + f"/b{k}")
+            fixed = len(R + f"/b{k}") + 19 * 201 + 1 + len("/base/ok")  # 19 full names, then the adjustable one
+            last = total - fixed
+            if not 1 <= last <= 255:
+                continue
+            nb = _deep_mkdirs(R + f"/b{k}", 20, "g", last_len=max(last, 3))
+            os.mkdir("base"); os.chdir("base"); fill_base()
+            setups.append((f"boundary", [f"b{k}"] + nb, "base", ["ok", "hard", "sym", "sub/f"]))
+        os.chdir(R)
+        desc = describe_tree_deep(R)
+        fsj = fs_json(desc)
+        inos = desc["inodes"]
+        for shape, steps, base, locs in setups:
+            if only is not None and shape != only:
+                continue
+            os.chdir(R)
+            for c_ in steps:
+                os.chdir(c_)
+            cwd = os.getcwd()
+            queries, obs_l = [], []
+            for li, loc in enumerate(locs):
+                for ep in (ENTRY_POINTS if loc in ("sym", "hard") and shape != "boundary" else [ENTRY_POINTS[li % len(ENTRY_POINTS)], ENTRY_POINTS[(li + 3) % len(ENTRY_POINTS)]]):
+                    case = {"cwd_len": len(cwd), "cwd_steps": len(steps), "base": base.replace(R, "$R"), "loc": loc, "ep": ep, "via": "pathmax", "shape": shape}
+                    t = make_tensor(base, loc)
+                    obs = real_read(t, ep, top + "/scratch", R)
+                    kind = "hardlink" if loc == "hard" else "symlink"
+                    ctx.case(["pathmax", shape, len(steps), base.replace(R, "$R"), loc, ep], nontrivial=True, pathmax_shape=shape,
+                             pathmax_outcome=(obs["r"] if obs["r"] == "ok" else "raised-" + obs.get("layer", "?")))
+                    if obs["r"] == "ok" and obs["bytes"] in canaries:
+                        ctx.fail(f"pathmax-escape:{kind}:{ep}", "a read returned the bytes of a file outside the base directory / with several links: the containment "
+                                 "check is blind where os.lstat / os.stat fail with ENAMETOOLONG (resolved names of PATH_MAX bytes or more)", {**case, "obs": {"r": "ok", "bytes": obs["bytes"]}})
+                    queries.append([base, loc, 0, NBYTES])
+                    obs_l.append((case, obs))
+            mo = lean_batch([{"m": "path.readsP", "fs": fsj, "cwd": cwd, "kfuel": KFUEL, "fuel": PFUEL, "queries": queries}])[0]
+            if "r" not in mo:
+                ctx.disagree("model error (pathmax)", {"shape": shape}, mo, None)
+                continue
+            for (case, obs), o in zip(obs_l, mo["r"]):
+                compare(ctx, {**case, "cwd": cwd}, {k_: v_ for k_, v_ in obs.items() if k_ != "own_opens"}, o, {}, R)
+                if (o.get("opened") is None) != (obs["own_opens"] == 0):
+                    ctx.disagree("open / no open of the tensor's path differs (pathmax)", case, o, {"r": obs["r"], "own_opens": obs["own_opens"]})
+    finally:
+        os.chdir(old)
+        shutil.rmtree(top, ignore_errors=True)
 
 
 def size_zero_cases(ctx: Ctx, tree: dict, desc: dict) -> None:
@@ -2129,6 +2509,14 @@ def replay(ctx: Ctx, obj: dict) -> None:
         part = Part()
         run_scenario(part, case["loc"], [tuple(x) for x in case["steps"]], case.get("sequence", "replay"))
         ctx.merge(part)
+        return
+    if str(case.get("via", "")).startswith("world") and "ops" in case:
+        part = Part()
+        run_world(part, [tuple(x) for x in case["ops"]], case.get("sequence", "replay"))
+        ctx.merge(part)
+        return
+    if case.get("via") == "pathmax":
+        pathmax_cases(ctx, only=case.get("shape"))
         return
     tree = build_tree(chains=True)
     old = os.getcwd()
